@@ -223,3 +223,123 @@ def rule_parse_complete(ctx, facts, prefix):
     if f is not None:
         pc = [c for c in f.calls if c.matches(r"::parse$") and ("RustParser" in c.func.get("full", "") or "pest::Parser" in (c.declared or ""))]
         ctx.check(len(pc) == 1, prefix, "one-parse", "each file's text is parsed once, as a whole (%d parse calls)" % len(pc), f.where())
+        if len(pc) == 1:
+            # every result of the finder comes out of that parse: a return reached without it (a textual
+            # pre-filter, a size cut-off ...) makes the statements of the skipped files invisible to every
+            # pass. The only bypass accepted is one decided by an emptiness test (nothing to find).
+            P = pc[0]
+            rets = [bb for bb in f.reachable_blocks() if f.term(bb)["k"] == "return"]
+            pre = cfg.reach(f, [0], avoid=[P.bb])
+            bad_sw = []
+            if any(r in pre for r in rets):
+                for bb in sorted(pre):
+                    t = f.term(bb)
+                    if t["k"] != "switch":
+                        continue
+                    outs = set(tgt for _v, tgt in t["arms"]) | {t["otherwise"]}
+                    esc = [o for o in outs if any(r in cfg.reach(f, [o], avoid=[P.bb]) for r in rets)]
+                    stay = [o for o in outs if P.bb in cfg.reach(f, [o])]
+                    if not esc or len(esc) == len(outs) and not stay:
+                        continue
+                    k, pl, _neg = trace_bool(f, t["discr"])
+                    if k == "call" and pl.matches(r"::is_empty$"):
+                        continue
+                    bad_sw.append(bb)
+                if not bad_sw and 0 in pre and any(r in pre for r in rets) and not any(f.term(bb)["k"] == "switch" for bb in pre):
+                    bad_sw.append(0)
+            ctx.check(not bad_sw, prefix, "parse-always", "no result of the finder is produced without parsing the file's text (bypass decided at %s)" % ([f.where(b) for b in bad_sw] or "none"),
+                      f.where(bad_sw[0]) if bad_sw else f.where())
+
+
+def _accesses(f):
+    """local -> [(bb, kind, whole)] with kind in def / mutref / use / move / drop"""
+    acc = {}
+
+    def note(l, bb, kind, whole=False):
+        acc.setdefault(l, []).append((bb, kind, whole))
+
+    def opn(o, bb):
+        p = op_place(o)
+        if p is not None:
+            note(p["l"], bb, "move" if "move" in o and not p["p"] else "use")
+    for bb in f.reachable_blocks():
+        blk = f.blocks[bb]
+        for st in blk["stmts"]:
+            if st["k"] != "assign":
+                note(st["dst"]["l"], bb, "def")
+                continue
+            dst, rv = st["dst"], st["rv"]
+            note(dst["l"], bb, "def", not dst["p"])
+            k = rv["k"]
+            ops = [rv["op"]] if k in ("use", "cast", "repeat") else [rv["a"], rv["b"]] if k == "bin" else [rv["a"]] if k == "un" else rv["ops"] if k == "agg" else []
+            for o in ops:
+                opn(o, bb)
+            if k in ("ref", "rawptr"):
+                p = rv["place"]
+                direct = "*" not in p["p"]
+                note(p["l"], bb, "mutref" if (rv.get("mut") or k == "rawptr") and direct else "use")
+            if k == "discr":
+                note(rv["place"]["l"], bb, "use")
+        t = blk["term"]
+        if t["k"] == "call":
+            for a in t["args"]:
+                opn(a, bb)
+            if "indirect" in t["func"]:
+                opn(t["func"]["indirect"], bb)
+            note(t["dst"]["l"], bb, "def", not t["dst"]["p"])
+        elif t["k"] == "switch":
+            opn(t["discr"], bb)
+        elif t["k"] == "drop":
+            note(t["place"]["l"], bb, "drop")
+        elif t["k"] == "yield":
+            opn(t["value"], bb)
+    return acc
+
+
+def rule_statement_local_state(ctx, facts, prefix):
+    """each statement is decided by itself: inside the loop over the file's statements nothing that was
+    initialised before the loop is modified, except the result list and the loop's own iterator. A buffer
+    or flag that lives across iterations lets one statement's key-values / directive / target leak into
+    the decision for the next one (unless it is cleared at the top of every iteration)."""
+    pw = pair_walk(ctx, facts, prefix)
+    if pw is None:
+        return
+    f, H, P = pw
+    L = loop_containing(f, H.bb)
+    dom = cfg.dominators(f)
+    acc = _accesses(f)
+    it = op_place(H.args[0])
+    iter_locals = set()
+    if it is not None:
+        pr = Prov(f)
+        iter_locals = pr.bases(it["l"])
+    res = op_place(P.args[0])
+    res_locals = Prov(f).bases(res["l"]) if res is not None else set()
+    carried = []
+    n = 0
+    for l, a in sorted(acc.items()):
+        inside = [x for x in a if x[0] in L]
+        mut_in = [x for x in inside if x[1] in ("def", "mutref")]
+        def_out = [x for x in a if x[0] not in L and x[1] in ("def", "mutref")] or (1 <= l <= f.arg_count)
+        if not (mut_in and def_out):
+            continue
+        n += 1
+        if l in iter_locals or l in res_locals:
+            continue
+        # re-initialised at the top of every iteration: a whole assignment, or a clear() through a fresh &mut,
+        # in a block that dominates every other in-loop access
+        reinit = []
+        for (bb, kind, whole) in inside:
+            if kind == "def" and whole:
+                reinit.append(bb)
+            elif kind == "mutref":
+                for c in f.calls:
+                    if c.bb == bb and c.matches(r"::(clear)$"):
+                        reinit.append(bb)
+        ok = any(all(r in dom.get(x[0], ()) for x in inside) for r in reinit)
+        if not ok:
+            carried.append(l)
+    ctx.check(not carried, prefix, "statement-local-state",
+              "inside the statement loop only the result list and the loop iterator outlive an iteration (carried: %s; %d loop-crossing locals examined)"
+              % ([(f.locals[l].get("name") or "_%d" % l) for l in carried] or "none", n),
+              f.where(H.bb))
